@@ -25,11 +25,7 @@ type verifRun struct {
 func verifRunTree(name string) *verifRun {
 	// literals of class S are not field-path references ('$...' strings are spelled out
 	// in the templates themselves, with a symbolic remainder)
-	for _, cl := range verifSecretClasses {
-		for _, s := range verifHoles(name, cl) {
-			verifAssume(!strings.HasPrefix(s, "$"))
-		}
-	}
+	verifAssumeLiterals(name)
 	line := verifLine(name)
 	in, ok := verifParseLine(line)
 	verifAssume(ok)
@@ -48,6 +44,18 @@ func verifRunTree(name string) *verifRun {
 	verifEmit(r.text)
 	verifReach("emitted")
 	return r
+}
+
+// verifAssumeLiterals: sensitive literals are not field-path references.
+func verifAssumeLiterals(name string) {
+	for _, cl := range verifSecretClasses {
+		for _, s := range verifHoles(name, cl) {
+			verifAssume(!strings.HasPrefix(s, "$"))
+			if verifParam("nonEmpty") == "yes" {
+				verifAssume(s != "") // bound of the quick tier of some checks (stated in their evidence)
+			}
+		}
+	}
 }
 
 // verifAssumeDistinctSiblings: the properties are stated for lines without duplicate sibling keys.
